@@ -48,6 +48,42 @@ StrSym == [
   \* 5000 letters: longer than the 4096 byte buffers of encoding/xml's encoder and of bufio
   S_big   |-> [i \in 1..5000 |-> 97 + (i % 26)] ]
 
+(* ------------------------------------------------------------------ long texts *)
+(* The LENGTH of a text is a dimension of its own: buffers, scanners and pools of the  *)
+(* code under test have sizes (4096 bytes: bufio and encoding/xml; 65536 bytes: the     *)
+(* longest token of a bufio.Scanner), so a text is quantified at these boundaries - one *)
+(* byte less, exactly, one byte more -, as ONE line, as a long line among short lines,  *)
+(* as a long line followed by short lines, and as many lines that are each short.       *)
+(* A long text is not written out: it is a RUN (code point c repeated n times) or LINES *)
+(* (the texts named by other symbols joined by the separator sep: 10 = newline, 32 =    *)
+(* blank); the driver expands it (symbols.json "long"), the laws only compare names.    *)
+Run(c, n)      == [kind |-> "run", c |-> c, n |-> n, lines |-> <<>>, sep |-> 0]
+Lines(ls, sep) == [kind |-> "lines", c |-> 0, n |-> 0, lines |-> ls, sep |-> sep]
+LongSym == [
+  L_4095  |-> Run(99, 4095),   L_4096  |-> Run(100, 4096),   L_4097  |-> Run(101, 4097),
+  L_65535 |-> Run(102, 65535), L_65536 |-> Run(103, 65536),  L_65537 |-> Run(104, 65537),
+  L_u65536 |-> Run(233, 32768),                \* 65536 BYTES of UTF-8 that are 32768 characters (e-acute)
+  L_1000x |-> Run(120, 1000),  L_1000y |-> Run(121, 1000),
+  L_a_4096_b  |-> Lines(<<"S_a", "L_4096", "S_b">>, 10),     \* a short line, a line of 4096 bytes, a short line
+  L_a_65536_b |-> Lines(<<"S_a", "L_65536", "S_b">>, 10),    \* the same at the 64 KiB boundary
+  L_65536_a_b |-> Lines(<<"L_65536", "S_a", "S_b">>, 10),    \* a long line FOLLOWED by short lines
+  L_a_65535_b |-> Lines(<<"S_a", "L_65535", "S_b">>, 10),    \* one byte below the boundary, among short lines
+  L_many  |-> Lines([i \in 1..70 |-> IF i % 2 = 1 THEN "L_1000x" ELSE "L_1000y"], 10),   \* 70 lines of 1000 bytes: 70 069 bytes, no long line
+  \* the same lines joined by a blank: what a title (which cannot hold a newline) becomes
+  L_a_65536_b_sp |-> Lines(<<"S_a", "L_65536", "S_b">>, 32) ]
+LongAtoms4k  == {"L_4095", "L_4096", "L_4097"}
+LongAtoms64k == {"L_65535", "L_65536", "L_65537", "L_u65536"}
+LongMulti    == {"L_a_4096_b", "L_a_65536_b", "L_65536_a_b", "L_a_65535_b", "L_many"}
+LongAll      == LongAtoms4k \cup LongAtoms64k \cup LongMulti
+(* UTF-8 length of a long text (the boundaries are boundaries in BYTES) *)
+Utf8Len(c) == IF c < 128 THEN 1 ELSE IF c < 2048 THEN 2 ELSE IF c < 65536 THEN 3 ELSE 4
+RECURSIVE SumLen(_, _)
+SymBytes(sy) == IF sy \in DOMAIN LongSym
+                  THEN (IF LongSym[sy].kind = "run" THEN LongSym[sy].n * Utf8Len(LongSym[sy].c)
+                        ELSE SumLen(LongSym[sy].lines, 1) + (Len(LongSym[sy].lines) - 1))
+                  ELSE Len(StrSym[sy])          \* short symbols: code points (a lower bound; they are all far below every boundary)
+SumLen(ls, i) == IF i > Len(ls) THEN 0 ELSE SymBytes(ls[i]) + SumLen(ls, i + 1)
+
 JidSym == [
   J_zero  |-> <<>>,                                                    \* jid.JID{}
   J_bare  |-> <<97, 64, 98, 46, 101, 120, 97, 109, 112, 108, 101>>,    \* a@b.example
@@ -79,12 +115,55 @@ TimeSym == [
   T_east |-> <<1654025523, 500000000, 19800>>,   \* 2022-06-01T01:02:03.5+05:30
   T_west |-> <<915177600, 0, -28800>> ]          \* 1999-01-01T00:00:00-08:00
   @@ ZoneTimeSym                                 \* T_utc = leap day in UTC, T_frac = sub-second part in UTC, T_pre ...
+(* "extreme ... times": the years at the edges of what the XEP-0082 profile (CCYY, four  *)
+(* digits) can carry - 0, 1 (T_zero is 0001-01-01T00:00:00Z), 9999 - and just outside -  *)
+(* negative, 10000, a five digit year as it results from a Unix time in milliseconds      *)
+(* taken for seconds -; times whose year differs between UTC and their own zone at these  *)
+(* edges (both ways); the smallest and the largest sub-second part; the largest time a    *)
+(* time.Time holds.  Unix seconds of these do not fit TLC's 32 bit integers, so an        *)
+(* extreme time is <<year, day of the year, second of the day, nanoseconds, zone offset   *)
+(* in seconds>> in its OWN zone (the driver builds it with time.Date(y, 1, doy, ...)).    *)
+ExtTimeSym == [
+  T_y0       |-> <<0, 1, 0, 0, 0>>,                    \* 0000-01-01T00:00:00Z
+  T_y0_e     |-> <<0, 1, 0, 0, 3600>>,                 \* 0000-01-01T00:00:00+01:00: year 0 in its zone, year -1 in UTC
+  T_yneg     |-> <<-1, 1, 0, 0, 0>>,                   \* -0001-01-01T00:00:00Z
+  T_yneg_w   |-> <<-1, 365, 84600, 0, -3600>>,         \* -0001-12-31T23:30:00-01:00: year -1 in its zone, year 0 in UTC
+  T_y1       |-> <<1, 1, 0, 1, 0>>,                    \* one nanosecond after time.Time{}
+  T_y9999    |-> <<9999, 365, 86399, 999999999, 0>>,   \* 9999-12-31T23:59:59.999999999Z: the last nanosecond of four digit years
+  T_y9999_w  |-> <<9999, 365, 82800, 0, -7200>>,       \* 9999-12-31T23:00:00-02:00: 9999 in its zone, 10000 in UTC
+  T_y10000   |-> <<10000, 1, 0, 0, 0>>,                \* 10000-01-01T00:00:00Z
+  T_y10000_e |-> <<10000, 1, 1800, 0, 3600>>,          \* 10000-01-01T00:30:00+01:00: 10000 in its zone, 9999 in UTC
+  T_y53700   |-> <<53700, 6, 0, 0, 0>>,                \* 53700-01-06T00:00:00Z = time.Unix(1632441600000, 0)
+  T_ns1      |-> <<2000, 1, 0, 1, 0>>,                 \* 2000-01-01T00:00:00.000000001Z
+  T_ns999    |-> <<1999, 365, 86399, 999999999, 0>> ]  \* 1999-12-31T23:59:59.999999999Z
+(* the largest time with a defined Unix time: time.Unix(1<<63-62135596801, 999999999), year 292277024627 *)
+MaxTimeSeq == <<"T_max">>
+MaxTimes == {MaxTimeSeq[i] : i \in 1..Len(MaxTimeSeq)}
+AllTimes == DOMAIN TimeSym \cup DOMAIN ExtTimeSym \cup MaxTimes
+DaysIn(y) == IF y % 4 = 0 /\ (y % 100 # 0 \/ y % 400 = 0) THEN 366 ELSE 365
+(* <<year, second of that year>> of an extreme time in UTC *)
+XUtc(x) == LET m == (x[2] - 1) * 86400 + x[3] - x[5] IN
+           IF m < 0 THEN <<x[1] - 1, m + DaysIn(x[1] - 1) * 86400>>
+           ELSE IF m >= DaysIn(x[1]) * 86400 THEN <<x[1] + 1, m - DaysIn(x[1]) * 86400>> ELSE <<x[1], m>>
+(* the instant a time symbol names (the three tables are disjoint: checked by the design check and by the driver) *)
+Inst(t) == IF t \in DOMAIN TimeSym THEN <<"unix", TimeSym[t][1], TimeSym[t][2]>>
+           ELSE IF t \in DOMAIN ExtTimeSym THEN <<"civil", XUtc(ExtTimeSym[t]), ExtTimeSym[t][4]>>
+           ELSE <<"max", t>>
+OffsetOf(t) == IF t \in DOMAIN TimeSym THEN TimeSym[t][3] ELSE IF t \in DOMAIN ExtTimeSym THEN ExtTimeSym[t][5] ELSE 0
+(* Can the four digit year of XEP-0082 carry the time?  The year written is the year in  *)
+(* UTC or the year in the time's own zone, depending on the type: a time is REPRESENTABLE *)
+(* when both are in 0..9999.  For the others the wire format has no text: an encoder may  *)
+(* refuse them (error), or write something its decoder refuses or reads back as the same  *)
+(* instant - but never panic, never write malformed XML, never come back as another time. *)
+FourDigits(y) == y >= 0 /\ y <= 9999
+Representable(t) == IF t \in DOMAIN ExtTimeSym THEN FourDigits(ExtTimeSym[t][1]) /\ FourDigits(XUtc(ExtTimeSym[t])[1])
+                    ELSE t \notin MaxTimes
 (* Where the zone is not part of a value two times are the same value iff they are the   *)
 (* same instant: InstOf names the instant by its symbol in UTC (if there is one).        *)
-SameInstant(a, b) == TimeSym[a][1] = TimeSym[b][1] /\ TimeSym[a][2] = TimeSym[b][2]
+SameInstant(a, b) == Inst(a) = Inst(b)
 InstOf(t) == IF t = "T_zero" THEN t
-             ELSE IF \E c \in DOMAIN TimeSym \ {"T_zero"} : SameInstant(c, t) /\ TimeSym[c][3] = 0
-                    THEN CHOOSE c \in DOMAIN TimeSym \ {"T_zero"} : SameInstant(c, t) /\ TimeSym[c][3] = 0
+             ELSE IF \E c \in AllTimes \ {"T_zero"} : SameInstant(c, t) /\ OffsetOf(c) = 0
+                    THEN CHOOSE c \in AllTimes \ {"T_zero"} : SameInstant(c, t) /\ OffsetOf(c) = 0
                     ELSE t
 (* integers as decimal strings (TLC integers are 32 bit) *)
 IntSym == [
